@@ -135,6 +135,16 @@ CHECKS = {
         note="time stamps supplied by the harness; extra older entries are allowed; at most 10 files",
         technique="TLA+ transcription vs reference (TLC exhaustive) + TLC trace validation of real query results",
         design="DESIGN.md §5 C12"),
+    "C15": dict(
+        level="model_checking",
+        text="NunPending: reference (sent / acknowledged sets) and the implementation-shaped counters side by "
+             "side; TLC checks PendingImpl = PendingRef and counter sanity over all interleavings of "
+             "register / ack for 2 operations x 3 nodes (duplicates, early and foreign acks) and generates "
+             "one sequence per (state, event); each sequence is applied to the real register_pending_opp / "
+             "acknowledge_pending_opp and TLC validates pending set, counters and ack results after every call.",
+        note="direct calls on a real Databases; membership stable; end-to-end accounting also observed in cluster runs",
+        technique="TLA+ reference + implementation twin (TLC exhaustive) + TLC trace validation of real calls",
+        design="DESIGN.md §5 C15"),
 }
 
 NOT_YET = "check not built yet (build in progress; see DESIGN.md §8 build order)"
